@@ -5,6 +5,7 @@ Modelica parse Tree to AST tree.
 from __future__ import absolute_import, division, print_function, unicode_literals
 
 import copy
+import functools
 import hashlib
 import logging
 import os
@@ -952,6 +953,26 @@ def _get_default_cache_path() -> Path:
     return dir_.expanduser()
 
 
+def _fresh_parse_on_database_error(func):
+    """
+    Fall back to an uncached parse when the cache database turns out to be unusable,
+    e.g. because it was damaged, replaced or deleted after this process last checked
+    it. The next call checks (and if needed recreates) the database again.
+    """
+
+    @functools.wraps(func)
+    def wrapper(txt, /, *args, **kwargs):
+        try:
+            return func(txt, *args, **kwargs)
+        except sqlite3.DatabaseError:
+            logger.warning("Model cache database could not be used, parsing without cache")
+            getattr(wrapper, "initialized_dbs", set()).clear()
+            return _parse(txt)
+
+    return wrapper
+
+
+@_fresh_parse_on_database_error
 def parse(
     txt: str,
     /,
